@@ -27,6 +27,9 @@ func fnInstrs(f *ssa.Function) int {
 // returns the exit code (0 pass, 1 violation, 2 inconclusive).
 func (r *runner) report(id string, hs []*harnessRun, t0 time.Time, noReplay bool) int {
 	evDir := filepath.Join(verifDir, "evidence")
+	if d := os.Getenv("VERIF_EVIDENCE_DIR"); d != "" {
+		evDir = d // used when the checks are pointed at a seeded scratch worktree
+	}
 	rpDir := filepath.Join(evDir, "replay")
 	os.MkdirAll(rpDir, 0o755)
 	// stale replay files of this property
